@@ -11,6 +11,10 @@ import Bermuda.Spec.C08
 import Bermuda.Lemmas.Aggregate
 import Bermuda.Lemmas.AggregateDates
 import Bermuda.Lemmas.AggregateAnchor
+import Bermuda.Lemmas.AggregateBridge
+import Bermuda.Lemmas.AggregateDay
+import Bermuda.Lemmas.AggregateDayStraddle
+import Bermuda.Lemmas.AggregateDayEval
 namespace Bermuda.Properties.C08
 open Bermuda Generated.Summarize
 
@@ -121,6 +125,42 @@ theorem spec_windowsOk_month {tr : Transc} {t out : List Cell} {q q' : Int} {s :
     (he : origin.isMonthEnd = true) : Spec.C08.windowsOk q' .month origin out = true :=
   windowsOk_month_agg h hst hv he
 
+/-- **`window_origin_day`: day / week units, the windows start the day after `period_origin + k·res`.** Dates inside
+`date.min … date.max` with one step of room (origin and period starts): there is an integer `j` such that every
+source cell is re-labelled with the window `[G_k + 1 day, G_{k+1}]`, where `G_k` is the (valid) date whose ordinal
+is `period_origin.ordinal + (j + k)·q` — consecutive windows of `q` days counted from the requested origin. -/
+theorem window_origin_day {tr : Transc} {t out : List Cell} {q q' : Int} {s : String} {origin : Date}
+    {prem : Bool} (h : aggregatePeriod tr t (some (q, s)) origin prem = .ok out)
+    (hst : standardizeResolution q s = .ok (q', .day)) (hq : 1 ≤ q') (hvo : origin.valid = true)
+    (ho1 : 1 ≤ origin.ordinal) (ho2 : origin.ordinal + q' ≤ 3652059)
+    (hcells : ∀ c ∈ t, c.ps.valid = true ∧ q' < c.ps.ordinal ∧ c.ps.ordinal + q' ≤ 3652059) :
+    ∃ (j : Int) (rel : List Cell), rel.length = t.length ∧
+      ∀ p ∈ (t.mergeSort fun a b => coordCmp a b != .gt).zip rel, ∃ (k : Nat) (g g' : Date),
+        g.valid = true ∧ g.ordinal = origin.ordinal + (j + k) * q' ∧ g'.valid = true ∧
+        g'.ordinal = origin.ordinal + (j + k + 1) * q' ∧ p.2.ps = g.succ ∧ p.2.pe = g' ∧
+        p.2.ev = p.1.ev ∧ p.2.values = p.1.values ∧ p.2.md = p.1.md ∧ ¬ (p.2.pe < p.1.pe) := by
+  obtain ⟨j, rel, hlen, _, hall⟩ := window_origin_day_agg h hst hq hvo ho1 ho2 hcells
+  exact ⟨j, rel, hlen, hall⟩
+
+/-- **bridge `spec_windowsOk_day`** (one slice) and its whole-triangle form: `Spec.C08.windowsOk` — every output
+period is `[origin + n·q days + 1 day, origin + (n+1)·q days]` by ordinal arithmetic from the REQUESTED origin, every
+output cell a CumulativeCell — holds on the model's output for day / week units. -/
+theorem spec_windowsOk_day {tr : Transc} {t out : List Cell} {q q' : Int} {s : String} {origin : Date}
+    {prem : Bool} (h : aggregatePeriod tr t (some (q, s)) origin prem = .ok out)
+    (hst : standardizeResolution q s = .ok (q', .day)) (hq : 1 ≤ q') (hvo : origin.valid = true)
+    (ho1 : 1 ≤ origin.ordinal) (ho2 : origin.ordinal + q' ≤ 3652059)
+    (hcells : ∀ c ∈ t, c.ps.valid = true ∧ q' < c.ps.ordinal ∧ c.ps.ordinal + q' ≤ 3652059) :
+    Spec.C08.windowsOk q' .day origin out = true :=
+  windowsOk_day_agg h hst hq hvo ho1 ho2 hcells
+
+theorem spec_windowsOk_day_all {tr : Transc} {t out : List Cell} {a : AggArgs} {q q' : Int} {s : String}
+    (h : aggregateCum tr t a = .ok out) (hp : a.periodRes = some (q, s))
+    (hst : standardizeResolution q s = .ok (q', .day)) (hq : 1 ≤ q') (hvo : a.periodOrigin.valid = true)
+    (ho1 : 1 ≤ a.periodOrigin.ordinal) (ho2 : a.periodOrigin.ordinal + q' ≤ 3652059)
+    (hcells : ∀ c ∈ t, c.ps.valid = true ∧ q' < c.ps.ordinal ∧ c.ps.ordinal + q' ≤ 3652059) :
+    Spec.C08.windowsOk q' .day a.periodOrigin out = true :=
+  windowsOk_day_cum h hp hst hq hvo ho1 ho2 hcells
+
 /-! ### 2. cells and conservation -/
 
 /-- **`aggPeriod_cell_spec`.** Exactly one output cell per (window, evaluation date) that has a re-labelled
@@ -163,8 +203,9 @@ theorem aggPeriod_cell_spec {tr : Transc} {t out : List Cell} {q : Int} {s : Str
     have hget : o.getV f = (Dict.get? vals f).getD .none := by rw [ho']; rfl
     rw [hget, this.1, hg2]
 
-/-- source cell `c` lies INSIDE the period of output cell `o` and has its evaluation date -/
-def insideOf (o c : Cell) : Bool := !(c.ps < o.ps) && !(o.pe < c.pe) && c.ev == o.ev
+/-- source cell `c` lies INSIDE the period of output cell `o` and has its evaluation date
+(`insideB o c = !(c.ps < o.ps) && !(o.pe < c.pe) && c.ev == o.ev`) -/
+abbrev insideOf (o c : Cell) : Bool := insideB o c
 
 /-- **`aggPeriod_sums_inside_month`: the sum clause over "the source cells whose period lies inside the aggregated
 period" — both directions.** Month units, valid month-end `period_origin`, positive quantity, source cells with
@@ -181,75 +222,7 @@ theorem aggPeriod_sums_inside_month {tr : Transc} {t out : List Cell} {q q' : In
     (hr : ruleOf [] (lowerKey f) = some ⟨.sum, [f]⟩) (hc : prem = true ∨ f ∉ nonLossMetrics)
     (hin : ∀ c ∈ t, (c.getV f).inRange i = true) :
     (o.getV f).at i = ((t.filter (insideOf o)).map fun c => (c.getV f).at i).sum := by
-  obtain ⟨q2, u, init, rel, ⟨hst', c0, hc0, hmin, hanchor⟩, hrel, _, hcell⟩ := aggPeriod_cell_spec h
-  rw [hst] at hst'
-  obtain ⟨rfl, rfl⟩ : q' = q2 ∧ ResUnit.month = u := by
-    injection hst' with h1; injection h1 with h2 h3; exact ⟨h2, h3⟩
-  obtain ⟨j, hj, _, _⟩ := anchor_spec_month hv he hanchor
-  have hvi : init.valid = true := by rw [hj]; exact monthEndOf_valid _
-  have hei : init.isMonthEnd = true := by rw [hj]; exact monthEndOf_isMonthEnd _
-  have hperm : (t.mergeSort fun a b => coordCmp a b != .gt).Perm t := List.mergeSort_perm _ _
-  obtain ⟨hlen, hall⟩ := assignWindows_spec hrel
-  have hcont := assignWindows_contains (sorted_by_ps t)
-    (fun c hc' => (hcells c (hperm.mem_iff.mp hc')).1)
-    (fun c hc' => Date.lt_of_lt_of_not_lt_agg (anchor_before hanchor) (hmin c (hperm.mem_iff.mp hc'))) hrel
-  obtain ⟨_, ⟨rc0, hrc0, hkey0, _⟩, hsum⟩ := hcell o ho
-  -- the window of `o`
-  obtain ⟨c00, hc00⟩ := mem_zip_of_mem_right hlen hrc0
-  obtain ⟨k0, hk0, _⟩ := hall (c00, rc0) hc00
-  have hops : o.ps = (windowAt q' .month init k0).1 := by
-    rw [← congrArg Prod.fst hk0]; exact (congrArg (fun k : Date × Date × Date => k.1) hkey0).symm
-  have hope : o.pe = (windowAt q' .month init k0).2 := by
-    rw [← congrArg Prod.snd hk0]; exact (congrArg (fun k : Date × Date × Date => k.2.1) hkey0).symm
-  -- labelled with the window of `o`  ⇔  inside it
-  have hiff : ∀ p ∈ (t.mergeSort fun a b => coordCmp a b != .gt).zip rel,
-      (key3 p.2 == key3 o) = insideOf o p.1 := by
-    intro p hp
-    obtain ⟨k, hk, _, _, hev, _, _, hnps, hnpe⟩ := hall p hp
-    have hcps := hcont p hp
-    have hrps : p.2.ps = (windowAt q' .month init k).1 := congrArg Prod.fst hk
-    have hrpe : p.2.pe = (windowAt q' .month init k).2 := congrArg Prod.snd hk
-    have hdates := (hcells p.1 (hperm.mem_iff.mp (List.of_mem_zip hp).1)).2
-    rw [Bool.eq_iff_iff]
-    simp only [insideOf, beq_iff_eq, Bool.and_eq_true, Bool.not_eq_true', decide_eq_false_iff_not]
-    constructor
-    · intro hkey
-      have e1 : p.2.ps = o.ps := congrArg (fun k : Date × Date × Date => k.1) hkey
-      have e2 : p.2.pe = o.pe := congrArg (fun k : Date × Date × Date => k.2.1) hkey
-      have e3 : p.2.ev = o.ev := congrArg (fun k : Date × Date × Date => k.2.2) hkey
-      exact ⟨⟨by rw [← e1]; exact hcps, by rw [← e2]; exact hnpe⟩, by rw [← hev, e3]⟩
-    · rintro ⟨⟨h1, h2⟩, h3⟩
-      have hkk : k = k0 := by
-        rcases Nat.lt_trichotomy k k0 with hlt | heq | hgt
-        · exfalso
-          have hd := window_disjoint_month_agg (q := q') hq hvi hei hlt
-          rw [← hrpe, ← hops] at hd
-          exact hnps (Date.lt_of_lt_of_not_lt_agg hd h1)
-        · exact heq
-        · exfalso
-          have hd := window_disjoint_month_agg (q := q') hq hvi hei hgt
-          rw [← hope, ← hrps] at hd
-          have h4 : o.pe < p.1.ps := Date.lt_of_lt_of_not_lt_agg hd hcps
-          exact h2 (Date.lt_of_lt_of_not_lt_agg h4 hdates)
-      subst hkk
-      simp only [key3]
-      rw [hrps, hrpe, ← hops, ← hope, hev, h3]
-  have hrange : ∀ rc ∈ rel, key3 rc = key3 o → (rc.getV f).inRange i = true := by
-    intro rc hrc _
-    obtain ⟨c, hc'⟩ := mem_zip_of_mem_right hlen hrc
-    obtain ⟨_, _, _, _, _, hvals, _⟩ := hall (c, rc) hc'
-    have hvals' : rc.values = c.values := hvals
-    have : rc.getV f = c.getV f := by simp [Cell.getV, hvals']
-    rw [this]; exact hin c (hperm.mem_iff.mp (List.of_mem_zip hc').1)
-  rw [hsum f i hr hc hrange, sum_filter_eq_indicator, sum_filter_eq_indicator,
-    ← sum_perm (hperm.map fun c => if insideOf o c then (c.getV f).at i else 0)]
-  symm
-  congr 1
-  apply map_eq_of_zip _ _ _ _ hlen
-  intro p hp
-  obtain ⟨_, _, _, _, _, hvals, _⟩ := hall p hp
-  have : p.2.getV f = p.1.getV f := by simp [Cell.getV, hvals]
-  rw [← hiff p hp, this]
+  exact ((sliceFacts_month h hst hq hv he hcells).sums o ho f i hr hc (fun c hc' _ => hin c hc')).2
 
 /-- **`aggPeriod_conserves`.** Per slice (`_aggregate_period` runs on one slice), evaluation date and summed
 field, the total is conserved sample by sample: nothing is dropped, duplicated or apportioned. -/
@@ -431,6 +404,68 @@ theorem straddle_raises_month {tr : Transc} {t : List Cell} {q q' : Int} {s : St
       have := (assignWindows_straddle_iff_month hq hv he hcells hmin hinit).mpr hstr
       rw [this]
 
+/-- **`straddle_iff_triangleError_day`**: the day / week twin of `straddle_iff_triangleError_month` (dates inside
+`date.min … date.max` with one step of room): the window walk ends in `TriangleError` EXACTLY when some source period
+crosses the end — computed by ordinal division from `period_origin` — of the window containing its start. -/
+theorem straddle_iff_triangleError_day {t : List Cell} {q' : Int} {origin init : Date} {c0 : Cell}
+    (hq : 1 ≤ q') (hvo : origin.valid = true) (ho1 : 1 ≤ origin.ordinal) (ho2 : origin.ordinal + q' ≤ 3652059)
+    (hcells : ∀ c ∈ t, c.datesOk = true ∧ c.ps.valid = true ∧ q' < c.ps.ordinal ∧
+      c.ps.ordinal + q' ≤ 3652059)
+    (hc0 : c0 ∈ t) (hmin : ∀ c ∈ t, ¬ c.ps < c0.ps)
+    (hanchor : anchorBefore q' .day origin c0.ps = some init) :
+    assignWindows q' .day init (t.mergeSort fun a b => coordCmp a b != .gt) = .error .triangleError ↔
+      Spec.C08.expectStraddle q' .day origin t = true :=
+  assignWindows_straddle_iff_day hq hvo ho1 ho2 hcells hc0 hmin hanchor
+
+/-- **`straddle_raises_day`**: day / week units — a straddling source period makes `_aggregate_period` raise
+`TriangleError`, and a successful `_aggregate_period` has no straddler (`Spec.C08.expectStraddle` false). -/
+theorem straddle_raises_day {tr : Transc} {t : List Cell} {q q' : Int} {s : String} {origin : Date}
+    {prem : Bool} (hst : standardizeResolution q s = .ok (q', .day)) (hq : 1 ≤ q')
+    (hvo : origin.valid = true) (ho1 : 1 ≤ origin.ordinal) (ho2 : origin.ordinal + q' ≤ 3652059)
+    (hcells : ∀ c ∈ t, c.datesOk = true ∧ c.ps.valid = true ∧ q' < c.ps.ordinal ∧
+      c.ps.ordinal + q' ≤ 3652059) :
+    (Spec.C08.expectStraddle q' .day origin t = true →
+      aggregatePeriod tr t (some (q, s)) origin prem = .error .triangleError) ∧
+    (∀ out, aggregatePeriod tr t (some (q, s)) origin prem = .ok out →
+      Spec.C08.expectStraddle q' .day origin t = false) := by
+  have hperm : (t.mergeSort fun a b => coordCmp a b != .gt).Perm t := List.mergeSort_perm _ _
+  have hs := sorted_by_ps t
+  have hps : ∀ c ∈ t, c.ps.valid = true ∧ q' < c.ps.ordinal ∧ c.ps.ordinal + q' ≤ 3652059 :=
+    fun c hc => (hcells c hc).2
+  constructor
+  · intro hstr
+    unfold aggregatePeriod
+    simp only [hst]
+    split
+    · rename_i hnil
+      have : t = [] := by
+        have := hperm.length_eq
+        rw [hnil] at this
+        exact List.eq_nil_of_length_eq_zero this.symm
+      subst this
+      simp [Spec.C08.expectStraddle] at hstr
+    · rename_i c0 tl hsorted
+      have hc0 : c0 ∈ t := hperm.mem_iff.mp (by rw [hsorted]; simp)
+      have hmin : ∀ c ∈ t, ¬ c.ps < c0.ps := by
+        intro c hc
+        rw [hsorted] at hs
+        rcases List.mem_cons.mp (by rw [← hsorted]; exact hperm.mem_iff.mpr hc) with rfl | hc'
+        · exact fun hlt => Date.lt_asymm_agg hlt hlt
+        · exact (List.pairwise_cons.mp hs).1 c hc'
+      obtain ⟨hv0, hb1, hb2⟩ := hps c0 hc0
+      split
+      · rename_i hnone; exact absurd hnone (anchorBefore_ne_none_day hq hvo hv0 ho1 ho2 hb1 hb2)
+      · rename_i init hinit
+        have := (assignWindows_straddle_iff_day hq hvo ho1 ho2 hcells hc0 hmin hinit).mpr hstr
+        rw [this]
+  · intro out h
+    obtain ⟨q2, u, init, rel, _, c0, hst', hc0, hmin, hanchor, hrel, _, _⟩ :=
+      aggregatePeriod_decompose_anchor h
+    rw [hst] at hst'
+    obtain ⟨rfl, rfl⟩ : q' = q2 ∧ ResUnit.day = u := by
+      injection hst' with h1; injection h1 with h2 h3; exact ⟨h2, h3⟩
+    exact expectStraddle_false_of_walk_day hq hvo ho1 ho2 hps hc0 hmin hanchor hrel
+
 /-- **windows are disjoint** (month units, month-end anchor, positive quantity — the regime of `window_spec`'s
 closed form): an earlier window ends strictly before a later one starts; with `window_consecutive` the windows
 tile the calendar from the anchor on. Window `k` is `[last day of month M + k·q, + 1 day … last day of month
@@ -589,6 +624,28 @@ theorem spec_evalOk_month {t out : List Cell} {q q' : Int} {s : String} {origin 
     onGrid_month_iff (hev c hc)]
   exact ⟨fun h => h.1, fun h => ⟨h, h1, h2⟩⟩
 
+/-- **`evalGrid_origin_day`**: day / week units — a valid date is kept iff its ordinal differs from `eval_origin`'s by
+a multiple of `q` and it lies between the first and the last evaluation date (dates inside `date.min … date.max`
+with one step of room). -/
+theorem evalGrid_origin_day {q : Int} {origin first last : Date} {grid : List Date} (hq : 1 ≤ q)
+    (hvo : origin.valid = true) (ho1 : 1 ≤ origin.ordinal) (ho2 : origin.ordinal + q ≤ 3652059)
+    (hvf : first.valid = true) (hf1 : q < first.ordinal) (hf2 : first.ordinal + q ≤ 3652059)
+    (hvl : last.valid = true) (hl2 : last.ordinal + 1 + q ≤ 3652059) (hfl : ¬ (last < first))
+    (h : validEvals q .day origin first last = some grid) (d : Date) (hvd : d.valid = true) :
+    d ∈ grid ↔ (∃ k : Int, d.ordinal = origin.ordinal + k * q) ∧ first ≤ d ∧ d ≤ last :=
+  evalGrid_day_agg hq hvo ho1 ho2 hvf hf1 hf2 hvl hl2 hfl h d hvd
+
+/-- **bridge `spec_evalOk_day`**: `Spec.C08.evalOk` holds on the model's `_aggregate_eval` of a canonical slice in
+day / week units -/
+theorem spec_evalOk_day {t out : List Cell} {q q' : Int} {s : String} {origin : Date}
+    (hs : t.Pairwise (fun a b => Cell.le a b)) (hk : kindsConsistent t = true)
+    (h : aggregateEval t (some (q, s)) origin = .ok out)
+    (hst : standardizeResolution q s = .ok (q', .day)) (hq : 1 ≤ q') (hvo : origin.valid = true)
+    (ho1 : 1 ≤ origin.ordinal) (ho2 : origin.ordinal + q' ≤ 3652059)
+    (hev : ∀ c ∈ t, c.ev.valid = true ∧ q' < c.ev.ordinal ∧ c.ev.ordinal + 1 + q' ≤ 3652059) :
+    Spec.C08.evalOk q' .day origin t out = true :=
+  evalOk_day_agg hs hk h hst hq hvo ho1 ho2 hev
+
 /-! ### 5. incremental in/out -/
 
 /-- **`aggregate_incremental_commutes`.** On an incremental triangle `aggregate` is the incremental form of the
@@ -704,6 +761,200 @@ theorem aggregate_conserves {tr : Transc} {t out : List Cell} {a : AggArgs} {q :
   exact sum_groups (fun c : Cell => c.md) G (metasOf t) t (metasOf_nodup_agg t)
     (fun c hc' => metasOf_mem_agg hc')
 
+/-! ### 5c. every clause of the executable Spec holds on the model's output (month units) -/
+
+/-- **`spec_holds_on_model_month`.** For a cumulative triangle aggregated to a period resolution in month units
+(month / quarter / year spellings, positive quantity) from a valid month-end `period_origin`, without an evaluation
+resolution, source cells with valid period starts and `period_start ≤ period_end`: ALL closed-form clauses of
+`Spec/C08.lean` — `windowsOk`, `cover` (every source cell lies in exactly one output cell of its slice and
+evaluation date, output coordinates distinct), `cellSums` (each summed field of each output cell = Σ over the source
+cells inside its window, sample by sample, and the cell has a source), `keysOk` (field names = union of its
+sources'), `conserves` (per slice and evaluation date) — hold on the output of the model's `aggregate`, with exactly
+the field list the driver passes (`additiveFields`, or `lossFields` when `summarize_premium = False`). -/
+theorem spec_holds_on_model_month {tr : Transc} {t out : List Cell} {a : AggArgs} {q q' : Int} {s : String}
+    (hinc : smIsIncremental t = false) (h : aggregate tr t a = .ok out) (hev : a.evalRes = none)
+    (hp : a.periodRes = some (q, s)) (hst : standardizeResolution q s = .ok (q', .month)) (hq : 1 ≤ q')
+    (hv : a.periodOrigin.valid = true) (he : a.periodOrigin.isMonthEnd = true)
+    (hcells : ∀ c ∈ t, c.ps.valid = true ∧ ¬ (c.pe < c.ps)) :
+    Spec.C08.holds q' .month a.periodOrigin
+      (if a.prem then Spec.C09.additiveFields else Spec.C09.lossFields) t out = true := by
+  rw [aggregate_cumulative tr t a hinc] at h
+  obtain ⟨aggs, st⟩ := stage_of_aggregateCum h hp (fun _ => true) (by
+    intro p _ e he'
+    rw [hev] at he'
+    simp only [aggregateEval] at he'
+    cases he'
+    simp)
+  have hft : t.filter (fun _ => true) = t := by simp
+  rw [hft] at st
+  exact st.holds (st.facts_of fun S r hsub hr =>
+    sliceFacts_month hr hst hq hv he (fun c hc => hcells c (hsub c hc))) (windowsOk_month_cum h hp hst hv he)
+
+/-- **`spec_holds_on_model_month_eval`: both resolutions at once.** With an evaluation resolution in month units
+given at the same time (valid month-end `eval_origin`, positive quantity, valid evaluation dates, a class-consistent
+triangle), the same five clauses hold with the source = the triangle FILTERED by the closed-form evaluation grid
+`eval_origin + k·res`: in particular each summed field's total per slice and evaluation date is conserved between
+the kept cells and the output. -/
+theorem spec_holds_on_model_month_eval {tr : Transc} {t out : List Cell} {a : AggArgs} {q q' qe qe' : Int}
+    {s se : String} (hinc : smIsIncremental t = false) (h : aggregate tr t a = .ok out)
+    (hev : a.evalRes = some (qe, se)) (hste : standardizeResolution qe se = .ok (qe', .month))
+    (hqe : 1 ≤ qe') (hve : a.evalOrigin.valid = true) (hee : a.evalOrigin.isMonthEnd = true)
+    (hk : kindsConsistent t = true) (hevs : ∀ c ∈ t, c.ev.valid = true)
+    (hp : a.periodRes = some (q, s)) (hst : standardizeResolution q s = .ok (q', .month)) (hq : 1 ≤ q')
+    (hv : a.periodOrigin.valid = true) (he : a.periodOrigin.isMonthEnd = true)
+    (hcells : ∀ c ∈ t, c.ps.valid = true ∧ ¬ (c.pe < c.ps)) :
+    Spec.C08.holds q' .month a.periodOrigin
+      (if a.prem then Spec.C09.additiveFields else Spec.C09.lossFields)
+      (t.filter fun c => Spec.C08.onGrid qe' .month a.evalOrigin c.ev) out = true := by
+  rw [aggregate_cumulative tr t a hinc] at h
+  obtain ⟨aggs, st⟩ := stage_of_aggregateCum h hp
+    (fun c => Spec.C08.onGrid qe' .month a.evalOrigin c.ev) (by
+    intro p hp' e he'
+    rw [hev] at he'
+    unfold Triangle.slices at hp'
+    obtain ⟨m, _, rfl⟩ := List.mem_map.mp hp'
+    simp only at he' ⊢
+    have hsp : ((t.filter (·.md == m)).mergeSort Cell.le).Perm (t.filter (·.md == m)) :=
+      List.mergeSort_perm _ _
+    have hsub : ∀ c ∈ (t.filter (·.md == m)).mergeSort Cell.le, c ∈ t :=
+      fun c hc => (List.mem_filter.mp (hsp.mem_iff.mp hc)).1
+    have := spec_evalOk_month (sorted_mergeSort (cmp := Cell.cmp) _) (kindsConsistent_of_subset hsub hk)
+      he' hste hqe hve hee (fun c hc => hevs c (hsub c hc))
+    unfold Spec.C08.evalOk at this
+    exact beq_iff_eq.mp this)
+  exact st.holds (st.facts_of fun S r hsub hr =>
+    sliceFacts_month hr hst hq hv he (fun c hc => hcells c (List.mem_filter.mp (hsub c hc)).1))
+    (windowsOk_month_cum h hp hst hv he)
+
+/-- **`spec_holds_on_model_day`: the same for day / week units.** Cumulative triangle, period resolution in days or
+weeks (positive quantity), no evaluation resolution, dates inside `date.min … date.max` with one step of room (origin
+and period starts), valid period starts with `period_start ≤ period_end`: all five clauses of `Spec/C08.lean`
+(ordinal arithmetic from the REQUESTED origin) hold on the output of the model's `aggregate`. -/
+theorem spec_holds_on_model_day {tr : Transc} {t out : List Cell} {a : AggArgs} {q q' : Int} {s : String}
+    (hinc : smIsIncremental t = false) (h : aggregate tr t a = .ok out) (hev : a.evalRes = none)
+    (hp : a.periodRes = some (q, s)) (hst : standardizeResolution q s = .ok (q', .day)) (hq : 1 ≤ q')
+    (hvo : a.periodOrigin.valid = true) (ho1 : 1 ≤ a.periodOrigin.ordinal)
+    (ho2 : a.periodOrigin.ordinal + q' ≤ 3652059)
+    (hcells : ∀ c ∈ t, (c.ps.valid = true ∧ ¬ (c.pe < c.ps)) ∧ q' < c.ps.ordinal ∧
+      c.ps.ordinal + q' ≤ 3652059) :
+    Spec.C08.holds q' .day a.periodOrigin
+      (if a.prem then Spec.C09.additiveFields else Spec.C09.lossFields) t out = true := by
+  rw [aggregate_cumulative tr t a hinc] at h
+  obtain ⟨aggs, st⟩ := stage_of_aggregateCum h hp (fun _ => true) (by
+    intro p _ e he'
+    rw [hev] at he'
+    simp only [aggregateEval] at he'
+    cases he'
+    simp)
+  have hft : t.filter (fun _ => true) = t := by simp
+  rw [hft] at st
+  exact st.holds (st.facts_of fun S r hsub hr =>
+    sliceFacts_day hr hst hq hvo ho1 ho2 (fun c hc => hcells c (hsub c hc)))
+    (windowsOk_day_cum h hp hst hq hvo ho1 ho2 (fun c hc =>
+      ⟨(hcells c hc).1.1, (hcells c hc).2.1, (hcells c hc).2.2⟩))
+
+/-- the evaluation stage of every slice in closed form (month units), as `holds_of_parts` wants it -/
+theorem evalStage_month {t : List Cell} {a : AggArgs} {qe qe' : Int} {se : String}
+    (hev : a.evalRes = some (qe, se)) (hste : standardizeResolution qe se = .ok (qe', .month))
+    (hqe : 1 ≤ qe') (hve : a.evalOrigin.valid = true) (hee : a.evalOrigin.isMonthEnd = true)
+    (hk : kindsConsistent t = true) (hevs : ∀ c ∈ t, c.ev.valid = true) :
+    ∀ p ∈ Triangle.slices t, ∀ e, aggregateEval p.2 a.evalRes a.evalOrigin = .ok e →
+      e = p.2.filter fun c => Spec.C08.onGrid qe' .month a.evalOrigin c.ev := by
+  intro p hp e he'
+  rw [hev] at he'
+  obtain ⟨h1, h2, hsub⟩ := slice_canonical hk hp
+  have := spec_evalOk_month h1 h2 he' hste hqe hve hee (fun c hc => hevs c (hsub c hc))
+  unfold Spec.C08.evalOk at this
+  exact beq_iff_eq.mp this
+
+/-- … and in day / week units -/
+theorem evalStage_day {t : List Cell} {a : AggArgs} {qe qe' : Int} {se : String}
+    (hev : a.evalRes = some (qe, se)) (hste : standardizeResolution qe se = .ok (qe', .day))
+    (hqe : 1 ≤ qe') (hve : a.evalOrigin.valid = true) (he1 : 1 ≤ a.evalOrigin.ordinal)
+    (he2 : a.evalOrigin.ordinal + qe' ≤ 3652059) (hk : kindsConsistent t = true)
+    (hevs : ∀ c ∈ t, c.ev.valid = true ∧ qe' < c.ev.ordinal ∧ c.ev.ordinal + 1 + qe' ≤ 3652059) :
+    ∀ p ∈ Triangle.slices t, ∀ e, aggregateEval p.2 a.evalRes a.evalOrigin = .ok e →
+      e = p.2.filter fun c => Spec.C08.onGrid qe' .day a.evalOrigin c.ev := by
+  intro p hp e he'
+  rw [hev] at he'
+  obtain ⟨h1, h2, hsub⟩ := slice_canonical hk hp
+  have := spec_evalOk_day h1 h2 he' hste hqe hve he1 he2 (fun c hc => hevs c (hsub c hc))
+  unfold Spec.C08.evalOk at this
+  exact beq_iff_eq.mp this
+
+/-- **`spec_holds_on_model_day_eval`**: period AND evaluation resolution both in day / week units -/
+theorem spec_holds_on_model_day_eval {tr : Transc} {t out : List Cell} {a : AggArgs} {q q' qe qe' : Int}
+    {s se : String} (hinc : smIsIncremental t = false) (h : aggregate tr t a = .ok out)
+    (hev : a.evalRes = some (qe, se)) (hste : standardizeResolution qe se = .ok (qe', .day))
+    (hqe : 1 ≤ qe') (hve : a.evalOrigin.valid = true) (he1 : 1 ≤ a.evalOrigin.ordinal)
+    (he2 : a.evalOrigin.ordinal + qe' ≤ 3652059) (hk : kindsConsistent t = true)
+    (hevs : ∀ c ∈ t, c.ev.valid = true ∧ qe' < c.ev.ordinal ∧ c.ev.ordinal + 1 + qe' ≤ 3652059)
+    (hp : a.periodRes = some (q, s)) (hst : standardizeResolution q s = .ok (q', .day)) (hq : 1 ≤ q')
+    (hvo : a.periodOrigin.valid = true) (ho1 : 1 ≤ a.periodOrigin.ordinal)
+    (ho2 : a.periodOrigin.ordinal + q' ≤ 3652059)
+    (hcells : ∀ c ∈ t, (c.ps.valid = true ∧ ¬ (c.pe < c.ps)) ∧ q' < c.ps.ordinal ∧
+      c.ps.ordinal + q' ≤ 3652059) :
+    Spec.C08.holds q' .day a.periodOrigin
+      (if a.prem then Spec.C09.additiveFields else Spec.C09.lossFields)
+      (t.filter fun c => Spec.C08.onGrid qe' .day a.evalOrigin c.ev) out = true := by
+  rw [aggregate_cumulative tr t a hinc] at h
+  exact holds_of_parts h hp _ (evalStage_day hev hste hqe hve he1 he2 hk hevs)
+    (fun S r hsub hr => sliceFacts_day hr hst hq hvo ho1 ho2 (fun c hc => hcells c (hsub c hc)))
+    (windowsOk_day_cum h hp hst hq hvo ho1 ho2 (fun c hc =>
+      ⟨(hcells c hc).1.1, (hcells c hc).2.1, (hcells c hc).2.2⟩))
+
+/-- **`spec_holds_on_model_month_evalday`**: period resolution in month units, evaluation resolution in days / weeks -/
+theorem spec_holds_on_model_month_evalday {tr : Transc} {t out : List Cell} {a : AggArgs} {q q' qe qe' : Int}
+    {s se : String} (hinc : smIsIncremental t = false) (h : aggregate tr t a = .ok out)
+    (hev : a.evalRes = some (qe, se)) (hste : standardizeResolution qe se = .ok (qe', .day))
+    (hqe : 1 ≤ qe') (hve : a.evalOrigin.valid = true) (he1 : 1 ≤ a.evalOrigin.ordinal)
+    (he2 : a.evalOrigin.ordinal + qe' ≤ 3652059) (hk : kindsConsistent t = true)
+    (hevs : ∀ c ∈ t, c.ev.valid = true ∧ qe' < c.ev.ordinal ∧ c.ev.ordinal + 1 + qe' ≤ 3652059)
+    (hp : a.periodRes = some (q, s)) (hst : standardizeResolution q s = .ok (q', .month)) (hq : 1 ≤ q')
+    (hv : a.periodOrigin.valid = true) (he : a.periodOrigin.isMonthEnd = true)
+    (hcells : ∀ c ∈ t, c.ps.valid = true ∧ ¬ (c.pe < c.ps)) :
+    Spec.C08.holds q' .month a.periodOrigin
+      (if a.prem then Spec.C09.additiveFields else Spec.C09.lossFields)
+      (t.filter fun c => Spec.C08.onGrid qe' .day a.evalOrigin c.ev) out = true := by
+  rw [aggregate_cumulative tr t a hinc] at h
+  exact holds_of_parts h hp _ (evalStage_day hev hste hqe hve he1 he2 hk hevs)
+    (fun S r hsub hr => sliceFacts_month hr hst hq hv he (fun c hc => hcells c (hsub c hc)))
+    (windowsOk_month_cum h hp hst hv he)
+
+/-- **`spec_holds_on_model_day_evalmonth`**: period resolution in days / weeks, evaluation resolution in month units -/
+theorem spec_holds_on_model_day_evalmonth {tr : Transc} {t out : List Cell} {a : AggArgs} {q q' qe qe' : Int}
+    {s se : String} (hinc : smIsIncremental t = false) (h : aggregate tr t a = .ok out)
+    (hev : a.evalRes = some (qe, se)) (hste : standardizeResolution qe se = .ok (qe', .month))
+    (hqe : 1 ≤ qe') (hve : a.evalOrigin.valid = true) (hee : a.evalOrigin.isMonthEnd = true)
+    (hk : kindsConsistent t = true) (hevs : ∀ c ∈ t, c.ev.valid = true)
+    (hp : a.periodRes = some (q, s)) (hst : standardizeResolution q s = .ok (q', .day)) (hq : 1 ≤ q')
+    (hvo : a.periodOrigin.valid = true) (ho1 : 1 ≤ a.periodOrigin.ordinal)
+    (ho2 : a.periodOrigin.ordinal + q' ≤ 3652059)
+    (hcells : ∀ c ∈ t, (c.ps.valid = true ∧ ¬ (c.pe < c.ps)) ∧ q' < c.ps.ordinal ∧
+      c.ps.ordinal + q' ≤ 3652059) :
+    Spec.C08.holds q' .day a.periodOrigin
+      (if a.prem then Spec.C09.additiveFields else Spec.C09.lossFields)
+      (t.filter fun c => Spec.C08.onGrid qe' .month a.evalOrigin c.ev) out = true := by
+  rw [aggregate_cumulative tr t a hinc] at h
+  exact holds_of_parts h hp _ (evalStage_month hev hste hqe hve hee hk hevs)
+    (fun S r hsub hr => sliceFacts_day hr hst hq hvo ho1 ho2 (fun c hc => hcells c (hsub c hc)))
+    (windowsOk_day_cum h hp hst hq hvo ho1 ho2 (fun c hc =>
+      ⟨(hcells c hc).1.1, (hcells c hc).2.1, (hcells c hc).2.2⟩))
+
+/-- **`aggPeriod_sums_inside_day`**: the sum clause over exactly the source cells inside the window, day / week
+units (the day-unit twin of `aggPeriod_sums_inside_month`) -/
+theorem aggPeriod_sums_inside_day {tr : Transc} {t out : List Cell} {q q' : Int} {s : String}
+    {origin : Date} {prem : Bool} (h : aggregatePeriod tr t (some (q, s)) origin prem = .ok out)
+    (hst : standardizeResolution q s = .ok (q', .day)) (hq : 1 ≤ q') (hvo : origin.valid = true)
+    (ho1 : 1 ≤ origin.ordinal) (ho2 : origin.ordinal + q' ≤ 3652059)
+    (hcells : ∀ c ∈ t, (c.ps.valid = true ∧ ¬ (c.pe < c.ps)) ∧ q' < c.ps.ordinal ∧
+      c.ps.ordinal + q' ≤ 3652059)
+    {o : Cell} (ho : o ∈ out) {f : String} {i : Nat}
+    (hr : ruleOf [] (lowerKey f) = some ⟨.sum, [f]⟩) (hc : prem = true ∨ f ∉ nonLossMetrics)
+    (hin : ∀ c ∈ t, (c.getV f).inRange i = true) :
+    (o.getV f).at i = ((t.filter (insideOf o)).map fun c => (c.getV f).at i).sum :=
+  ((sliceFacts_day h hst hq hvo ho1 ho2 hcells).sums o ho f i hr hc (fun c hc' _ => hin c hc')).2
+
 /-! ### 6. non-vacuity: three quarters into half-years -/
 
 abbrev exQ : List Cell := aggExQ
@@ -723,6 +974,12 @@ example :
       ((exQ.filter fun c => c.ev == ⟨2020, 12, 31⟩).map fun c => (c.getV "paid_loss").at 0).sum :=
   aggPeriod_conserves (f := "paid_loss") (i := 0) aggExQ_aggregates (by decide +kernel) (Or.inl rfl)
     (by decide +kernel) ⟨2020, 12, 31⟩
+
+/-- **`aggregate` succeeds** on the three quarters and every hypothesis of `spec_holds_on_model_month` is met:
+the five Spec clauses hold on `(exQ, aggExOut)` as a consequence of the theorem (not by evaluation) -/
+example : Spec.C08.holds 6 .month ⟨1999, 12, 31⟩ Spec.C09.additiveFields exQ aggExOut = true :=
+  spec_holds_on_model_month (a := aggExArgs) (by decide +kernel) aggExQ_aggregate rfl rfl (by decide +kernel)
+    (by decide) (by decide +kernel) (by decide +kernel) (by decide +kernel)
 
 /-- **`aggregateEval` succeeds**: yearly evaluation grid from the default origin keeps the year-end diagonal -/
 example : aggregateEval exQ (some (1, "year")) ⟨1999, 12, 31⟩ = .ok exQ := aggExQ_evalAgg
